@@ -76,12 +76,19 @@ def gen_c05(rnd, tier):
             for i in range(n):
                 cases.append(('setint', [a, (rnd.choice('01'), rnd.choice(SIDES))], (i,)))
     # large operands whose lengths are computed independently (beyond CPython's small-int cache and beyond a few hundred pieces)
-    for n in ([257, 258, 300, 511, 512, 1000, 2100] if T else [257, 300, 1024]):
+    # (contents of more than 256 bytes too: byte counts beyond the small-int cache: 2049.., 2057, 4100 bits; beyond 1024 bytes: 8200, 9001 bits)
+    for n in ([257, 258, 300, 511, 512, 1000, 2100, 2049, 2057, 2060, 4100, 8200, 9001] if T else [257, 300, 1024, 2050, 2057, 4100, 9001]):
         for sa in SIDES:
             a = (randbits(rnd, n), sa)
             b2 = (randbits(rnd, rnd.choice([n, 1, 7, 259])), rnd.choice(SIDES))
             cases += [('add', [a, b2], ()), ('copy', [a], ()), ('iter', [a], ()), ('pad', [a], ('L' if sa == 'R' else 'R', 0)),
                       ('getitem', [a], (rnd.randint(0, 100), rnd.randint(200, n))), ('setitem', [a, b2], (rnd.randint(0, 100), rnd.randint(100, 257)))]
+    # concatenations whose shifted operand is longer than 4096 bytes (block-wise implementations), every sub-byte offset class
+    for n in ([32769, 33001, 40003, 66000] if T else [33001, 40003]):
+        for sa in SIDES:
+            for sb in SIDES:
+                cases.append(('add', [(randbits(rnd, rnd.choice([1, 3, 5, 7, 11])), sa), (randbits(rnd, n), sb)], ()))
+                cases.append(('add', [(randbits(rnd, n), sa), (randbits(rnd, rnd.choice([3, 9, n // 2])), sb)], ()))
     if T:
         # every content for short operands
         for la in range(0, 7):
@@ -129,6 +136,16 @@ def gen_c06(rnd, tier):
         cases.append(('shift', [a], (rnd.randint(-(n + 8), n + 8), rnd.randint(0, 1))))
         cases.append(('value', [a], ()))
         cases.append(('chunks', [a], (rnd.randint(1, 40), rnd.randint(0, 1))))
+    # shifts and re-padding of operands whose content is longer than 256 bytes / 1024 bytes, every bit offset
+    for n in ([2049, 2050, 2055, 2056, 2057, 4099, 8201, 9001] if T else [2050, 2057, 8201]):
+        for sd in SIDES:
+            a = (randbits(rnd, n), sd)
+            for k in ([-9, -8, -7, -3, -1, 1, 3, 8, 9] if T else [-3, -1, 5]):
+                cases.append(('shift', [a], (k, 0)))
+            cases.append(('pad', [a], ('L' if sd == 'R' else 'R', 0)))
+            cases.append(('hash', [a, (a[0], 'L' if sd == 'R' else 'R')], ()))
+            cases.append(('eq', [a, (a[0], 'L' if sd == 'R' else 'R')], ()))
+            cases.append(('indict', [(a[0], 'L' if sd == 'R' else 'R'), a, (randbits(rnd, n), sd)], ()))
     # large operands: equal lengths above 256 computed independently; buffers splitting into more than a thousand pieces
     for n in ([257, 258, 264, 300, 511, 512, 1000, 1024, 4000] if T else [257, 300, 1024]):
         for sa in SIDES:
@@ -179,7 +196,15 @@ def gen_c13(rnd, tier):
         sa, sb = rnd.choice(SIDES), rnd.choice(SIDES)
         cases.append(('eq', [(a, sa), (b, sb)], ()))
         cases.append(('hash', [(a, sa), (a, sb)], ()))
-    # dictionaries / sets keyed by buffers, probed by equal and unequal buffers of any side
+    # long keys (content beyond 256 and beyond 1024 bytes, not byte aligned): equal buffers of either side hash alike and find each other
+    for n in ([2049, 2057, 8193, 8201, 9001, 12005] if T else [2057, 8201, 9001]):
+        a = randbits(rnd, n)
+        b_ = a[:-1] + ('1' if a[-1] == '0' else '0')
+        for sa in SIDES:
+            for sb in SIDES:
+                cases.append(('hash', [(a, sa), (a, sb)], ()))
+                cases.append(('eq', [(a, sa), (b_, sb)], ()))
+                cases.append(('indict', [(a, sa), (b_, sb), (a, sb)], ()))
     for _ in range(3000 if T else 600):
         n = rnd.randint(0, 20)
         k = rnd.randint(1, 6)
